@@ -405,10 +405,14 @@ def greens_func_2d(east, north, mindist, poisson):
     distance += mindist
     # Pre-compute common terms for the Green's functions of each component
     ln_r = (3 - poisson) * np.log(distance)
-    over_r2 = (1 + poisson) / distance**2
-    green_ee = ln_r + over_r2 * north**2
-    green_nn = ln_r + over_r2 * east**2
-    green_ne = -over_r2 * east * north
+    # Use the ratios to the distance (bounded by 1) instead of dividing by
+    # distance**2, which underflows to zero for tiny distances and produced
+    # NaNs for coincident points with a very small mindist
+    east_r = east / distance
+    north_r = north / distance
+    green_ee = ln_r + (1 + poisson) * north_r**2
+    green_nn = ln_r + (1 + poisson) * east_r**2
+    green_ne = -(1 + poisson) * east_r * north_r
     return green_ee, green_nn, green_ne
 
 
